@@ -207,7 +207,7 @@ def harness_bin(release=False):
     return os.path.join(VERIF, "harness/target", "release" if release else "debug", "harness")
 
 
-STALL_S = 45          # a process that answers nothing for this long (no byte of output) is taken to hang in its current operation
+STALL_S = 90          # a process that answers nothing for this long (no byte of output) is taken to hang in its current operation
 MAX_HANGS = 3         # after that many operations of one shard that never return, the rest of the shard is not run ("unanswered")
 
 
